@@ -5,6 +5,7 @@ import (
 	"go/ast"
 	"go/token"
 	"go/types"
+	"golang.org/x/tools/go/cfg"
 	"strings"
 )
 
@@ -326,95 +327,110 @@ func checkPromiseEvents(r *Reporter, p *Prog) {
 			r.Unresolved("promise/swap-and-call-outside", key, "method not found")
 			continue
 		}
-		// the locked snapshot section: the function literal (invoked on the spot or through a local
-		// variable) that takes the event mutex
-		var lit *ast.FuncLit
-		ast.Inspect(fd.Body, func(n ast.Node) bool {
-			if l, ok := n.(*ast.FuncLit); ok && lit == nil {
-				locks := false
-				ast.Inspect(l.Body, func(m ast.Node) bool {
-					if c, ok := m.(*ast.CallExpr); ok {
-						if op, path := lockOp(info, c); op == "Lock" && strings.HasSuffix(path, ".mutex") {
-							locks = true
-						}
-					}
-					return !locks
-				})
-				if locks {
-					lit = l
-				}
+		// Judged on Trigger's graph with the locked section in place, whether that section is a literal
+		// invoked on the spot, a local closure or a named helper.
+		f := newFuncCFG(p, info, fd.Body, key)
+		recvObj := info.Defs[fd.Recv.List[0].Names[0]]
+		mu := fmt.Sprintf("%s@%d.mutex", recvObj.Name(), recvObj.Pos())
+		held := f.LocksHeld(nil)
+		isSwap := func(n ast.Node) bool {
+			as, ok := n.(*ast.AssignStmt)
+			return ok && len(as.Lhs) == 1 && len(as.Rhs) == 1 && fieldSel(info, as.Lhs[0], "callbacks") && isNil(info, as.Rhs[0])
+		}
+		isValueStore := func(n ast.Node) bool {
+			as, ok := n.(*ast.AssignStmt)
+			return ok && len(as.Lhs) == 1 && fieldSel(info, as.Lhs[0], "value")
+		}
+		// the snapshot: Values() of the callback map
+		var snaps []Point
+		for _, c := range f.Calls(func(c *ast.CallExpr) bool {
+			se, ok := ast.Unparen(c.Fun).(*ast.SelectorExpr)
+			return ok && se.Sel.Name == "Values" && len(c.Args) == 0
+		}) {
+			cpt, found := f.PointOf(c)
+			if !found {
+				continue
 			}
-			return true
-		})
+			if strings.HasSuffix(f.KeyAt(ast.Unparen(c.Fun).(*ast.SelectorExpr).X, cpt), ".callbacks") {
+				snaps = append(snaps, cpt)
+			}
+		}
+		// the invocations: calls through a function-typed local (a registered callback)
+		var invocations []Point
+		for _, c := range f.Calls(func(c *ast.CallExpr) bool {
+			id, isId := ast.Unparen(c.Fun).(*ast.Ident)
+			if !isId {
+				return false
+			}
+			v, isVar := info.Uses[id].(*types.Var)
+			if !isVar || v.IsField() {
+				return false
+			}
+			_, isFn := v.Type().Underlying().(*types.Signature)
+			return isFn
+		}) {
+			if f.regionByCall(c) != nil {
+				continue // a local closure that was spliced in, not a registered callback
+			}
+			if cpt, found := f.PointOf(c); found {
+				invocations = append(invocations, cpt)
+			}
+		}
 		var bad []string
-		if lit == nil {
-			// no separate section: the callbacks must still not run under the event mutex
-			underLock := ""
-			AnalyzeLocks(fd.Body, LockSet{}, &FlowOpts{Info: info}, func(n ast.Node, stack []ast.Node, held LockSet) {
-				cl, ok := n.(*ast.CallExpr)
-				if !ok || len(held) == 0 {
-					return
-				}
-				if id, isId := ast.Unparen(cl.Fun).(*ast.Ident); isId {
-					if v, isVar := info.Uses[id].(*types.Var); isVar {
-						if _, isFn := v.Type().Underlying().(*types.Signature); isFn {
-							underLock = fmt.Sprintf("%s: the registered callbacks are invoked while holding %s: a callback that registers, unsubscribes or triggers on this event dead-locks, and registrations block until all callbacks have finished", p.posStr(cl.Pos()), held)
-						}
-					}
-				}
-			})
-			if underLock != "" {
-				bad = append(bad, underLock)
-			} else {
-				bad = append(bad, "no locked snapshot section that swaps the callback map")
+		swaps := f.Find(isSwap)
+		switch {
+		case len(snaps) == 0:
+			bad = append(bad, "no locked snapshot section that swaps the callback map")
+		case len(swaps) == 0:
+			bad = append(bad, "Trigger never swaps the callback map for nil")
+		case len(invocations) == 0:
+			bad = append(bad, "the registered callbacks are never invoked (vacuous)")
+		}
+		for _, sp := range swaps {
+			if held(sp)[mu] < ModeW {
+				bad = append(bad, f.PosOf(sp)+": the callback map is swapped for nil outside the exclusive section")
 			}
-		} else {
-			lf := newFuncCFG(p, info, lit.Body, key)
-			isSwap := func(n ast.Node) bool {
-				as, ok := n.(*ast.AssignStmt)
-				return ok && len(as.Lhs) == 1 && fieldSel(info, as.Lhs[0], "callbacks") && isNil(info, as.Rhs[0])
+		}
+		for _, sn := range snaps {
+			if held(sn)[mu] < ModeW {
+				bad = append(bad, f.PosOf(sn)+": the snapshot of the callbacks is taken outside the exclusive section")
 			}
-			wasSet := lf.RelEdges(func(rel Rel) bool {
-				return rel.Op == "!=" && (rel.L == "callbacks" && rel.R == "nil" || rel.R == "callbacks" && rel.L == "nil")
-			})
-			_ = wasSet
-			// every path that returns the snapshot passes the swap
-			for _, pt := range lf.Find(func(n ast.Node) bool {
-				rs, ok := n.(*ast.ReturnStmt)
-				return ok && len(rs.Results) == 1 && strings.HasSuffix(exprKey(rs.Results[0]), ".Values()")
-			}) {
-				if _, found := lf.PathFromEntryAvoiding(pt, isSwap, nil); found {
-					bad = append(bad, "the callbacks are handed out without swapping the map for nil: a second Trigger (or a late OnTrigger) runs them again / registers into a consumed map")
-				}
-				if t != "Event" {
-					if _, found := lf.PathFromEntryAvoiding(pt, func(n ast.Node) bool {
-						as, ok := n.(*ast.AssignStmt)
-						return ok && len(as.Lhs) == 1 && fieldSel(info, as.Lhs[0], "value")
-					}, nil); found {
-						bad = append(bad, "the triggered value is not stored in the section that consumes the callbacks: a late OnTrigger reads a nil value")
-					}
+			// the section that hands the snapshot out also consumes the map (before or after taking it)
+			_, before := f.PathFromEntryAvoiding(sn, isSwap, nil)
+			_, after := f.PathToExitAvoiding(sn, isSwap)
+			if before && after {
+				bad = append(bad, "the callbacks are handed out without swapping the map for nil: a second Trigger (or a late OnTrigger) runs them again / registers into a consumed map")
+			}
+			if t != "Event" {
+				_, before := f.PathFromEntryAvoiding(sn, isValueStore, nil)
+				_, after := f.PathToExitAvoiding(sn, isValueStore)
+				if before && after {
+					bad = append(bad, "the triggered value is not stored in the section that consumes the callbacks: a late OnTrigger reads a nil value")
 				}
 			}
-			if len(lf.Find(isSwap)) == 0 {
-				bad = append(bad, "Trigger never swaps the callback map for nil")
-			}
-			// callbacks invoked outside the lock: the loop body call is outside the literal
-			invokedInside := false
-			ast.Inspect(lit.Body, func(n ast.Node) bool {
-				if cl, ok := n.(*ast.CallExpr); ok {
-					// a call through a function-typed variable (a registered callback)
-					if id, isId := ast.Unparen(cl.Fun).(*ast.Ident); isId {
-						if v, isVar := info.Uses[id].(*types.Var); isVar {
-							if _, isFn := v.Type().Underlying().(*types.Signature); isFn {
-								invokedInside = true
-							}
-						}
-					}
+		}
+		if t != "Event" {
+			for _, vp := range f.Find(isValueStore) {
+				if held(vp)[mu] < ModeW {
+					bad = append(bad, f.PosOf(vp)+": the triggered value is stored outside the exclusive section")
 				}
-				return true
-			})
-			if invokedInside {
-				bad = append(bad, "callbacks are invoked inside the locked section")
+			}
+		}
+		// one critical section: snapshot, swap and value belong together
+		nAcq := len(f.Find(func(n ast.Node) bool {
+			c, ok := n.(*ast.CallExpr)
+			if !ok {
+				return false
+			}
+			op, path := lockOp(info, c)
+			return (op == "Lock" || op == "RLock") && strings.HasSuffix(path, ".mutex")
+		}))
+		if nAcq != 1 && len(bad) == 0 {
+			bad = append(bad, fmt.Sprintf("%d acquisitions of the event mutex in Trigger: snapshot and swap must be one critical section", nAcq))
+		}
+		for _, ip := range invocations {
+			if h := held(ip); h[mu] > 0 {
+				bad = append(bad, fmt.Sprintf("%s: the registered callbacks are invoked while holding %s: a callback that registers, unsubscribes or triggers on this event dead-locks, and registrations block until all callbacks have finished", f.PosOf(ip), h))
 			}
 		}
 		if len(bad) > 0 {
@@ -422,39 +438,170 @@ func checkPromiseEvents(r *Reporter, p *Prog) {
 		} else {
 			r.Pass("promise/swap-and-call-outside", key, p.posStr(fd.Pos()), "snapshot and nil-swap (plus value) under the mutex, callbacks called outside")
 		}
-		// OnTrigger
-		fdo := p.FuncDecl(pkg, t, "OnTrigger")
-		okey := pkg + "." + t + ".OnTrigger"
-		if fdo == nil {
-			r.Unresolved("promise/register-or-call-inline", okey, "method not found")
-			continue
+		checkPromiseOnTrigger(r, p, pkg, t)
+	}
+}
+
+// checkPromiseOnTrigger: a callback is registered under the event mutex with a fresh id, exactly
+// when the event has not been triggered yet (callbacks != nil, tested in the same section);
+// otherwise it is called inline, once, outside the lock; the unsubscribe handle deletes that id
+// under the mutex.
+func checkPromiseOnTrigger(r *Reporter, p *Prog, pkg, t string) {
+	info := p.Pkg(pkg).TypesInfo
+	fdo := p.FuncDecl(pkg, t, "OnTrigger")
+	okey := pkg + "." + t + ".OnTrigger"
+	if fdo == nil {
+		r.Unresolved("promise/register-or-call-inline", okey, "method not found")
+		return
+	}
+	f := newFuncCFG(p, info, fdo.Body, okey)
+	recvObj := info.Defs[fdo.Recv.List[0].Names[0]]
+	mu := fmt.Sprintf("%s@%d.mutex", recvObj.Name(), recvObj.Pos())
+	held := f.LocksHeld(nil)
+	params := paramObjs(info, fdo)
+	var bad []string
+	if len(params) != 1 || params[0] == nil {
+		r.Fail("promise/register-or-call-inline", okey, p.posStr(fdo.Pos()), "expected one callback parameter")
+		return
+	}
+	cb := params[0]
+	isNilRel := func(rel Rel, op string) bool {
+		return rel.Op == op && ((strings.HasSuffix(rel.L, ".callbacks") && rel.R == "nil") || (strings.HasSuffix(rel.R, ".callbacks") && rel.L == "nil"))
+	}
+	var nilEdges, setEdges []Edge
+	f.forEachEdgeFact(func(e Edge, b *cfg.Block, ft fact) {
+		pt := Point{b, len(b.Nodes) - 1}
+		rel, ok := relOfWith(ft.Atom, func(x ast.Expr) string { return f.KeyAt(x, pt) })
+		if !ok {
+			return
 		}
-		s, _ := srcOf(p, pkg, t, "OnTrigger")
-		okShape := hasAll(s, "return void,false", "callbackID:=e.callbackIDs.Next()", "e.callbacks.Set(callbackID,callback)", "e.callbacks.Delete(callbackID)", "unsubscribe,subscribed:=registerCallback()")
-		f := newFuncCFG(p, info, fdo.Body, okey)
-		_, notSub := f.CondEdges(func(e ast.Expr) bool { return exprKey(e) == "subscribed" })
-		inlineCalls := f.Find(func(n ast.Node) bool {
-			cl, ok := n.(*ast.CallExpr)
-			return ok && exprKey(cl.Fun) == "callback"
+		if !ft.Pol {
+			rel = negRel(rel)
+		}
+		if !isNilRel(rel, "==") && !isNilRel(rel, "!=") {
+			return
+		}
+		if held(pt)[mu] < ModeW {
+			bad = append(bad, f.PosOf(pt)+": the triggered test (callbacks == nil) is evaluated outside the exclusive section: a Trigger in between loses the callback")
+		}
+		if isNilRel(rel, "==") {
+			nilEdges = append(nilEdges, e)
+		} else {
+			setEdges = append(setEdges, e)
+		}
+	})
+	isRegister := func(n ast.Node) bool {
+		c, ok := n.(*ast.CallExpr)
+		if !ok || len(c.Args) != 2 {
+			return false
+		}
+		se, ok := ast.Unparen(c.Fun).(*ast.SelectorExpr)
+		return ok && se.Sel.Name == "Set" && fieldSel(info, se.X, "callbacks")
+	}
+	isInline := func(n ast.Node) bool {
+		c, ok := n.(*ast.CallExpr)
+		if !ok {
+			return false
+		}
+		if objOfIdent(info, c.Fun) == cb {
+			return true
+		}
+		if _, isId := ast.Unparen(c.Fun).(*ast.Ident); !isId {
+			return false
+		}
+		cpt, found := f.PointOf(c)
+		return found && f.IsVar(c.Fun, cpt, cb)
+	}
+	regs := f.Find(isRegister)
+	inl := f.Find(isInline)
+	var idObj types.Object
+	switch {
+	case len(nilEdges) == 0 || len(setEdges) == 0:
+		bad = append(bad, "no test of the callback map against nil (triggered?)")
+	case len(regs) != 1:
+		bad = append(bad, fmt.Sprintf("expected one registration callbacks.Set(id, callback), found %d", len(regs)))
+	case len(inl) != 1:
+		bad = append(bad, fmt.Sprintf("expected one inline call of the callback, found %d", len(inl)))
+	default:
+		rp, ip := regs[0], inl[0]
+		var reg *ast.CallExpr
+		inspectNoLit(f.nodeAt(rp), func(n ast.Node) bool {
+			if isRegister(n) {
+				reg = n.(*ast.CallExpr)
+			}
+			return true
 		})
-		okInline := len(inlineCalls) == 1
-		if okInline {
-			_, only := f.OnlyThroughEdges(inlineCalls[0], notSub)
-			okInline = only
-			for _, e := range notSub {
-				if _, found := f.reach(Point{e.From.Succs[e.Succ], 0}, &searchOpts{AvoidNode: func(n ast.Node) bool {
-					cl, ok := n.(*ast.CallExpr)
-					return ok && exprKey(cl.Fun) == "callback"
-				}}, func(pt Point, atExit bool) bool { return atExit }); found {
-					okInline = false
-				}
+		if held(rp)[mu] < ModeW {
+			bad = append(bad, f.PosOf(rp)+": the callback is registered outside the exclusive section")
+		}
+		if !f.IsVar(reg.Args[1], rp, cb) {
+			bad = append(bad, f.PosOf(rp)+": what is registered is not the callback parameter")
+		}
+		// a fresh id: the result of callbackIDs.Next(), taken in the same section
+		idObj = objOfIdent(info, reg.Args[0])
+		src, spt := f.ResolveToCall(reg.Args[0], rp)
+		okID := false
+		if c, isCall := ast.Unparen(src).(*ast.CallExpr); isCall {
+			if se, isSel := ast.Unparen(c.Fun).(*ast.SelectorExpr); isSel && se.Sel.Name == "Next" && fieldSel(info, se.X, "callbackIDs") && held(spt)[mu] >= ModeW {
+				okID = true
 			}
 		}
-		if okShape && okInline {
-			r.Pass("promise/register-or-call-inline", okey, p.posStr(fdo.Pos()), "registered under the mutex with a unique id, or called inline exactly when the event was already triggered; unsubscribe deletes its own id")
-		} else {
-			r.Fail("promise/register-or-call-inline", okey, p.posStr(fdo.Pos()), fmt.Sprintf("a callback must be registered under the mutex (unique id) or, iff the event was already triggered, called inline exactly once (shape=%v inline=%v)", okShape, okInline))
+		if !okID {
+			bad = append(bad, f.PosOf(rp)+": the registration id is not a fresh callbackIDs.Next() taken under the mutex")
 		}
+		if w, only := f.OnlyThroughEdges(rp, setEdges); !only {
+			bad = append(bad, "the callback is registered on a path that did not see callbacks != nil: "+strings.Join(w, " -> "))
+		}
+		if w, only := f.OnlyThroughEdges(ip, nilEdges); !only {
+			bad = append(bad, "the callback is called inline on a path that did not see the event triggered (it will be called again by Trigger): "+strings.Join(w, " -> "))
+		}
+		if h := held(ip); h[mu] > 0 {
+			bad = append(bad, fmt.Sprintf("%s: the callback is called inline while holding %s", f.PosOf(ip), h))
+		}
+		for _, e := range nilEdges {
+			e := e
+			if w, found := f.reach(Point{e.From.Succs[e.Succ], 0}, &searchOpts{FromEdge: &e, AvoidNode: isInline}, func(pt Point, atExit bool) bool { return atExit }); found {
+				bad = append(bad, "an already triggered event can return without calling the callback: "+strings.Join(w, " -> "))
+			}
+		}
+		for _, e := range setEdges {
+			e := e
+			if w, found := f.reach(Point{e.From.Succs[e.Succ], 0}, &searchOpts{FromEdge: &e, AvoidNode: isRegister}, func(pt Point, atExit bool) bool { return atExit }); found {
+				bad = append(bad, "a pending event can return without registering the callback: "+strings.Join(w, " -> "))
+			}
+		}
+	}
+	// the unsubscribe handle: a literal that deletes the registered id under the mutex
+	if len(bad) == 0 {
+		okUnsub := false
+		ast.Inspect(fdo.Body, func(n ast.Node) bool {
+			lit, isLit := n.(*ast.FuncLit)
+			if !isLit || len(lit.Type.Params.List) != 0 {
+				return true
+			}
+			AnalyzeLocks(lit.Body, LockSet{}, &FlowOpts{Info: info}, func(m ast.Node, _ []ast.Node, h LockSet) {
+				c, ok := m.(*ast.CallExpr)
+				if !ok || len(c.Args) != 1 {
+					return
+				}
+				se, ok := ast.Unparen(c.Fun).(*ast.SelectorExpr)
+				if !ok || se.Sel.Name != "Delete" || !fieldSel(info, se.X, "callbacks") {
+					return
+				}
+				if idObj != nil && objOfIdent(info, c.Args[0]) == idObj && h[mu] >= ModeW {
+					okUnsub = true
+				}
+			})
+			return true
+		})
+		if !okUnsub {
+			bad = append(bad, "no unsubscribe handle that deletes the registered id under the mutex")
+		}
+	}
+	if len(bad) == 0 {
+		r.Pass("promise/register-or-call-inline", okey, p.posStr(fdo.Pos()), "registered under the mutex with a unique id, or called inline exactly when the event was already triggered; unsubscribe deletes its own id")
+	} else {
+		r.Fail("promise/register-or-call-inline", okey, p.posStr(fdo.Pos()), "a callback must be registered under the mutex (unique id) or, iff the event was already triggered, called inline exactly once: "+bad[0], bad...)
 	}
 }
 
@@ -486,21 +633,15 @@ func checkValueNotifier(r *Reporter, p *Prog) {
 		}
 		recvObj := info.Defs[fd.Recv.List[0].Names[0]]
 		recvPath := fmt.Sprintf("%s@%d", recvObj.Name(), recvObj.Pos())
-		var closes []*ast.CallExpr
+		// on the graph with the helpers in place: the close may live in a helper shared by both
+		closes := f.Calls(func(cl *ast.CallExpr) bool { return rawKey(cl.Fun) == "close" })
 		bad := ""
-		AnalyzeLocks(fd.Body, LockSet{}, &FlowOpts{Info: info}, func(n ast.Node, stack []ast.Node, held LockSet) {
-			if cl, ok := n.(*ast.CallExpr); ok && exprKey(cl.Fun) == "close" {
-				for _, c0 := range closes {
-					if c0 == cl {
-						return
-					}
-				}
-				closes = append(closes, cl)
-				if held[recvPath+".mutex"] < ModeW {
-					bad = "the listener channel is closed outside the exclusive section"
-				}
+		held := f.LocksHeld(nil)
+		for _, cl := range closes {
+			if cpt, found := f.PointOf(cl); !found || held(cpt)[recvPath+".mutex"] < ModeW {
+				bad = "the listener channel is closed outside the exclusive section"
 			}
-		})
+		}
 		if len(closes) == 0 {
 			bad = "no close of the listener channel found (vacuous)"
 		}
@@ -564,21 +705,30 @@ func checkValueNotifier(r *Reporter, p *Prog) {
 	}
 	// the closures hand over their own entry
 	if fd := p.FuncDecl(pkg, "Notifier", "Listener"); fd != nil {
-		n, ok := 0, true
-		ast.Inspect(fd.Body, func(nd ast.Node) bool {
-			cl, isCall := nd.(*ast.CallExpr)
-			if !isCall || !strings.HasSuffix(exprKey(cl.Fun), ".removeListener") {
-				return true
-			}
-			n++
-			if len(cl.Args) != 2 || shortTypeName(typeName(info.TypeOf(cl.Args[1]))) != "listener" {
-				ok = false
-			}
-			return true
-		})
 		// every listener handed out is counted: on every path to newListener(...) the shared entry
 		// was either created here (with its count initialised) or its count was incremented
 		lfn := newFuncCFG(p, info, fd.Body, pkg+".Notifier.Listener")
+		// the deregistration closures handed to newListener (here or in a helper that builds the handle)
+		n, ok := 0, true
+		for _, hc := range lfn.Calls(func(cl *ast.CallExpr) bool { return rawKey(cl.Fun) == "newListener" }) {
+			for _, a := range hc.Args {
+				lit, isLit := ast.Unparen(a).(*ast.FuncLit)
+				if !isLit {
+					continue
+				}
+				ast.Inspect(lit.Body, func(nd ast.Node) bool {
+					cl, isCall := nd.(*ast.CallExpr)
+					if !isCall || !strings.HasSuffix(exprKey(cl.Fun), ".removeListener") {
+						return true
+					}
+					n++
+					if len(cl.Args) != 2 || shortTypeName(typeName(info.TypeOf(cl.Args[1]))) != "listener" {
+						ok = false
+					}
+					return true
+				})
+			}
+		}
 		counted := func(nd ast.Node) bool {
 			switch x := nd.(type) {
 			case *ast.IncDecStmt:
